@@ -497,4 +497,135 @@ def memOfDb (db : DB) : Mem :=
       | some k => (db.keysets.filter (·.active)).getLast?.map (·.idx) |>.getD k.idx
       | none => 0 }
 
+/-! ## The sequential machine: one operation at a time (requests do not overlap)
+
+  `applyOp` is what the driver executes for every op line of the correspondence streams and what
+  the history theorems (`Props/`) quantify over. -/
+
+structure Sess where
+  w : World := {}
+  /-- mint quotes whose invoice watcher goroutine is alive (cleared by a restart) -/
+  watchers : List Nat := []
+  deriving Inhabited
+
+inductive Op where
+  | extInvoice (id : Nat) (msat : UInt64)            -- an invoice created by somebody else's node
+  | settle (h : Nat)                                  -- the payer's node settles invoice h
+  | mintQuote (amount : UInt64) (unitSat : Bool) (pk : PkReq) (lnFail : Bool)
+  | notify (q : Nat)                                  -- the backend's "invoice settled" notification reaches the watcher
+  | quoteState (q : Int) (lnFail : Bool)
+  | mint (q : Int) (outs : List BMsg) (sig : QSig)
+  | swap (ps : List Proof) (outs : List BMsg) (outputsVerdict : Option E)
+  | meltQuote (inv : InvReq) (unitSat : Bool) (mpp : Option UInt64)
+  | melt (q : Int) (ps : List Proof) (script : List LnAns)
+  | meltState (q : Int) (script : List LnAns)
+  | checkState (ys : List YRef) (script : List LnAns)
+  | restore (bs : List Nat)
+  | balance
+  | rotate (fee : UInt64)
+  | restart (rotate : Bool) (fee : UInt64)
+  | armFault (k : Nat)                                -- the k-th storage call of the next operation fails
+  | disarm
+
+inductive Res where
+  | unit
+  | mintQuote (r : Except E MintQ)
+  | notify (r : Option Bool)                          -- none: no live watcher
+  | quoteState (r : Except E MintQ)
+  | sigs (r : Except E (List BSig))
+  | meltQuote (r : Except E MeltQ)
+  | melt (r : Except E MeltQ)
+  | states (r : Except E (List (PState × Nat)))
+  | restored (r : Except E (List BSig))
+  | balance (r : Except E Balance)
+  | rotated (r : Except E Nat)
+  | restarted (r : Except E Nat)
+
+def cxOf (s : Sess) : Cx := { mem := s.w.mem, cfg := s.w.cfg }
+
+/-- Run a program as one operation: fresh trace and call log, the given Lightning script; afterwards the
+    unused script and the one-shot failure flags are dropped. -/
+def Sess.runPM {α : Type} (s : Sess) (p : PM α) (script : List LnAns) : Sess × Except E α :=
+  let w0 := { s.w with trace := [], ln := { s.w.ln with script := script, calls := [] } }
+  let (w1, r) := (p.run).run w0
+  ({ s with w := { w1 with ln := { w1.ln with script := [], failInvoiceStatus := 0, failCreateInvoice := 0 } } }, r)
+
+def applyOp (s : Sess) : Op → Sess × Res
+  | .extInvoice id msat =>
+    let inv : Invoice := { id := id, msat := msat, settled := false, external := true }
+    ({ s with w := { s.w with ln := { s.w.ln with invoices := s.w.ln.invoices ++ [inv] } } }, .unit)
+  | .settle h =>
+    let invs := s.w.ln.invoices.map (fun i => if i.id == h then { i with settled := true } else i)
+    ({ s with w := { s.w with ln := { s.w.ln with invoices := invs } } }, .unit)
+  | .mintQuote amount unitSat pk lnFail =>
+    let qid := s.w.nextMintQ
+    let s0 := { s with w := { s.w with ln := { s.w.ln with failCreateInvoice := if lnFail then 1 else 0 } } }
+    let (s1, r) := s0.runPM (requestMintQuote (cxOf s) qid amount unitSat pk) []
+    match r with
+    | .ok _ => ({ s1 with w := { s1.w with nextMintQ := qid + 1 }, watchers := qid :: s1.watchers }, .mintQuote r)
+    | .error _ => (s1, .mintQuote r)
+  | .notify q =>
+    if s.watchers.contains q then
+      let (s1, r) := s.runPM (watcherNotified q) []
+      ({ s1 with watchers := s1.watchers.filter (· != q) }, .notify (match r with | .ok b => some b | .error _ => some false))
+    else
+      ({ s with w := { s.w with trace := [], ln := { s.w.ln with calls := [] } } }, .notify none)
+  | .quoteState q lnFail =>
+    let s0 := { s with w := { s.w with ln := { s.w.ln with failInvoiceStatus := if lnFail then 1 else 0 } } }
+    let (s1, r) := s0.runPM (getMintQuoteState q) []
+    (s1, .quoteState r)
+  | .mint q outs sig =>
+    let (s1, r) := s.runPM (mintTokens (cxOf s) q outs sig) []
+    (s1, .sigs r)
+  | .swap ps outs v =>
+    let (s1, r) := s.runPM (swap (cxOf s) ps outs v) []
+    (s1, .sigs r)
+  | .meltQuote inv unitSat mpp =>
+    let qid := s.w.nextMeltQ
+    let (s1, r) := s.runPM (requestMeltQuote (cxOf s) qid inv (invMsat s.w.ln) unitSat mpp) []
+    match r with
+    | .ok _ => ({ s1 with w := { s1.w with nextMeltQ := qid + 1 } }, .meltQuote r)
+    | .error _ => (s1, .meltQuote r)
+  | .melt q ps script =>
+    let (s1, r) := s.runPM (meltTokens (cxOf s) q ps) script
+    (s1, .melt r)
+  | .meltState q script =>
+    let (s1, r) := s.runPM (getMeltQuoteState q) script
+    (s1, .melt r)
+  | .checkState ys script =>
+    let (s1, r) := s.runPM (proofsStateCheck ys) script
+    (s1, .states r)
+  | .restore bs =>
+    let (s1, r) := s.runPM (restoreSigs bs) []
+    (s1, .restored r)
+  | .balance =>
+    let (s1, r) := s.runPM (balanceOp (cxOf s)) []
+    (s1, .balance r)
+  | .rotate fee =>
+    let w0 := { s.w with trace := [], ln := { s.w.ln with calls := [] } }
+    let (w1, (mem', r)) := (rotateKeyset s.w.mem fee).run w0
+    ({ s with w := { w1 with mem := mem' } }, .rotated r)
+  | .restart rotate fee =>
+    -- clean shutdown + LoadMint on the same directory: memory is rebuilt from storage; load-time
+    -- storage calls bypass the harness proxy (no trace); every watcher dies
+    let mem0 := memOfDb s.w.db
+    let w0 := { s.w with mem := mem0, trace := [], ln := { s.w.ln with calls := [] } }
+    if rotate then
+      let (w1, (mem', r)) := (rotateKeyset mem0 fee).run w0
+      ({ w := { w1 with mem := mem', trace := [] }, watchers := [] }, .restarted (r.map (fun _ => mem'.active)))
+    else
+      ({ w := w0, watchers := [] }, .restarted (.ok mem0.active))
+  | .armFault k => ({ s with w := { s.w with faultAt := some k, nDb := 0 } }, .unit)
+  | .disarm => ({ s with w := { s.w with faultAt := none } }, .unit)
+
+/-- Initial session of a fresh mint: keyset 0 active with the configured fee. -/
+def initSess (fee : UInt64) (feePct : Bool) (cfg : Cfg) : Sess :=
+  let k0 : KsRow := { idx := 0, active := true, fee := fee }
+  { w := { db := { keysets := [k0] }, mem := { keysets := [k0], active := 0 }, ln := { feePct := feePct }, cfg := cfg } }
+
+/-- A sequential history. -/
+def runOps (s : Sess) : List Op → Sess
+  | [] => s
+  | op :: rest => runOps (applyOp s op).1 rest
+
 end Gonuts.Model.Mint
